@@ -297,8 +297,13 @@ def literal_strategy(versions):
         tb = table(v)
         node = tb.nodes[draw(st.integers(0, len(tb.nodes) - 1))]
         pos = list(positives(tb, node))
-        mode = draw(st.sampled_from(["pos", "pos", "bare", "neg"]))
+        mode = draw(st.sampled_from(["pos", "pos", "bare", "neg", "notnumber"]))
         lit = draw(gen_hed.NUM)
+        if mode == "notnumber" and pos and tb.m.node_value_classes(node) == ["numericClass"]:
+            # not "a number": digits of other scripts, a dangling exponent, two signs, a trailing line feed
+            bad = draw(st.sampled_from(["\u0663", "\uff11\uff12", "\u0663.\u0665", "1e", "--2", "1_0", "3\n", "0x10", "1,5"]))
+            txt = pos[draw(st.integers(0, len(pos) - 1))][0]
+            return {"version": v, "node": node.long, "mode": "notnumber", "unit": txt, "literal": bad}
         if mode == "pos" and pos:
             txt = pos[draw(st.integers(0, len(pos) - 1))][0]
             return {"version": v, "node": node.long, "mode": "pos", "unit": txt, "literal": lit}
@@ -328,6 +333,12 @@ def oracle_literal(case):
                 b = convert(v, node, f"{lit2} {case['unit']}")
                 if a is None or b is None or not close(b, 2 * a):
                     out.bad("conversion-not-linear", f"{v}: {node.short}/{lit} {case['unit']} -> {a}; x2 -> {b}")
+    elif case["mode"] == "notnumber":
+        out.nontrivial = True
+        errs, warns = validate_codes(v, node, f"{lit} {case['unit']}")
+        if not errs:
+            out.bad("not-a-number-accepted:" + ("ascii" if lit.isascii() else "non-ascii-digits"),
+                    f"{v}: {tag_text(node, lit + ' ' + case['unit'])!r} -> no error")
     elif case["mode"] == "neg":
         out.nontrivial = True
         check_negative(out, v, node, lit, case["kind"], case["unit"])
